@@ -633,7 +633,8 @@ def precond_cases(chk, only, lines, handlers, viol, quick, dyn):
     rng = chk.rng
     kclasses = ["Dense[psd]", "Toeplitz", "Kronecker", "PsdSum", "ConstantMul", "BlockDiag", "SumBatch", "Chol[lower]",
                 "BatchRepeat", "Sum[toeplitz+diag]", "BlockInterleaved"]
-    dkinds = ["const", "const-batched", "diag-equal", "diag", "diag-batched", "diag-broadcast", "diag-mixed"]
+    dkinds = ["const", "const-batched", "diag-equal", "diag", "diag-batched", "diag-broadcast", "diag-mixed",
+              "tiny", "tiny-mixed", "nearly", "nearly-mixed"]
     batches = [(), (2,)] if quick else [(), (2,), (2, 3)]
     for batch in batches:
         insts = catalogue.instances(rng, torch.float64, batch, 3, psd=True, depth=1, classes=kclasses)
@@ -643,7 +644,7 @@ def precond_cases(chk, only, lines, handlers, viol, quick, dyn):
             n = it.shape[-1]
             kb = tuple(it.shape[:-2])
             for dk in dkinds:
-                if dk in ("const-batched", "diag-batched", "diag-mixed") and not kb:
+                if dk in ("const-batched", "diag-batched", "diag-mixed", "tiny-mixed", "nearly-mixed") and not kb:
                     continue
                 if dk == "diag-broadcast" and not kb:
                     continue
@@ -698,6 +699,34 @@ def make_noise(rng, dk, kb, n):
             v[1:, 0] = v[1:, 1] + 1.0
         v = v.reshape(*kb, n)
         return DiagLinearOperator(v), v
+    nbm = int(torch.Size(kb).numel())
+    if dk in ("tiny", "tiny-mixed"):
+        # all entries below 1e-8 but a factor of up to 9 apart (the kernel is scaled by 1e-8 by the caller): any absolute
+        # tolerance in the constant-diagonal test would call this constant
+        rows = []
+        for b in range(nbm):
+            ks = [rng.randint(1, 9) for _ in range(n)]
+            if n > 1:
+                ks[0], ks[-1] = 1, 9
+            rows.append([1e-9 * k for k in ks])
+        v = torch.tensor(rows, dtype=torch.float64)
+        if dk == "tiny-mixed":
+            v[0] = v[0, -1]          # first member exactly constant, the others not
+        v = v.reshape(*kb, n)
+        return DiagLinearOperator(v), v
+    if dk in ("nearly", "nearly-mixed"):
+        # relative spread 1e-7 .. 1e-6 at ordinary scale: any relative tolerance in the constant-diagonal test would call this constant
+        rows = []
+        for b in range(nbm):
+            c = r()
+            rows.append([c * (1.0 + (0.0 if i == 0 else 1e-7 + 2e-7 * rng.randint(1, 4) * i / max(1, n - 1))) for i in range(n)])
+        v = torch.tensor(rows, dtype=torch.float64)
+        if n == 1:
+            v = v
+        if dk == "nearly-mixed":
+            v[0] = v[0, 0]           # first member exactly constant, the others nearly constant
+        v = v.reshape(*kb, n)
+        return DiagLinearOperator(v), v
     raise ValueError(dk)
 
 
@@ -709,6 +738,17 @@ def precond_case(chk, cell, it, dk, mx, mn, ptol, lines, handlers, viol, dyn):
     n = K.shape[-1]
     kb = tuple(K.shape[:-2])
     Dop, dvals = make_noise(rng, dk, kb, n)
+    tiny = dk.startswith("tiny")
+    if tiny:
+        K = K * 1e-8
+
+    def build_k():
+        from linear_operator.operators import ConstantMulLinearOperator, DenseLinearOperator
+        if not tiny:
+            return it.build()
+        if it.name == "Dense[psd]":
+            return DenseLinearOperator(it.dense.double() * 1e-8)
+        return ConstantMulLinearOperator(it.build(), torch.full(kb, 1e-8, dtype=torch.float64))
     payload = {"kind": "precond", "name": it.name, "dk": dk, "mx": mx, "mn": mn, "ptol": ptol}
     chk.case(f"{cell}|ptol={ptol}|{K.flatten()[:9].tolist()}|{dvals.flatten()[:6].tolist()}", nontrivial=n > 1)
     chk.count("precond:" + dk)
@@ -723,7 +763,7 @@ def precond_case(chk, cell, it, dk, mx, mn, ptol, lines, handlers, viol, dyn):
         mx_eff = settings.max_preconditioner_size.value()
         mn_eff = settings.min_preconditioning_size.value()
         tol_eff = settings.preconditioner_tolerance.value()
-        op = AddedDiagLinearOperator(it.build(), Dop) if rng.random() < 0.5 else AddedDiagLinearOperator(Dop, it.build())
+        op = AddedDiagLinearOperator(build_k(), Dop) if rng.random() < 0.5 else AddedDiagLinearOperator(Dop, build_k())
         torch.linalg.qr = spy
         try:
             closure, lt, logdet = op._preconditioner()
@@ -757,17 +797,21 @@ def precond_case(chk, cell, it, dk, mx, mn, ptol, lines, handlers, viol, dyn):
         mo, Lo, po, margin, stop_margin, minpiv = oracle_float(Kf, mx_eff, tol_eff)
         if margin > 1e-7 and stop_margin > 1e-5 and minpiv > 1e-9:
             Lpf = flat_batch(Lp, 2)
-            if k != mo or float((Lpf - Lo).abs().max()) > 1e-7 * max(1.0, float(Kf.abs().max())):
+            if k != mo or float((Lpf - Lo).abs().max()) > 1e-7 * max(1e-12, float(Kf.abs().max())) ** 0.5:
                 viol(cell, f"factor is not pivoted_cholesky(K, rank={mx_eff}, tol={tol_eff}): r={k} vs {mo}", payload)
                 return
         Pm = Lp @ Lp.mT + torch.diag_embed(dvals)          # what the preconditioner must invert
-        scale = max(1.0, float(Pm.abs().max()))
+        scale = float(Pm.abs().max())
         eye = torch.eye(n, dtype=torch.float64).expand(*kb, n, n)
         X = torch.tensor([[rng.randint(-3, 3) for _ in range(2)] for _ in range(n)], dtype=torch.float64).expand(*kb, n, 2).contiguous()
         Pinv = torch.linalg.inv(Pm)
         got_inv = closure(eye.clone())
         if got_inv.shape != Pinv.shape or float((got_inv - Pinv).abs().max()) > 1e-9 * max(1.0, float(Pinv.abs().max())):
             viol(cell, f"closure(I) differs from (L L^T + D)^-1 by {float((got_inv - Pinv).abs().max()) if got_inv.shape == Pinv.shape else 'shape'} (k={k})", payload)
+            return
+        pci = float((Pm @ got_inv - eye).abs().max())
+        if pci > 1e-9:
+            viol(cell, f"(L L^T + D) closure(I) differs from I by {pci:.3e} (k={k}, noise {dvals.reshape(-1, n)[0].tolist()})", payload)
             return
         cx = closure(X.clone())
         if float((Pm @ cx - X).abs().max()) > 1e-9 * scale * max(1.0, float(cx.abs().max())):
